@@ -12,6 +12,9 @@ Core Lean only.
 namespace LyModel.Diff
 open LyModel LyModel.Tree
 
+/-- key leaves as (schema id, canonical value) pairs -/
+def keyPairs (ks : List DNode) : List (Nat × Bytes) := ks.map fun k => (k.sid, k.val)
+
 /-- schema node of the fragment: leaf / container / system-ordered keyed list / system-ordered leaf-list -/
 def plainSid (S : Schema) (sid : Nat) : Bool :=
   !S.isUserOrd sid && !S.isDupInst sid && (S.isTerm sid || S.isInner sid)
@@ -71,6 +74,21 @@ callback cannot tell apart are the same instance for `lyd_compare_single`.  True
 integer order is the order of the canonical decimal strings' numbers, …); it is what finding F28 (date-and-time) violates. -/
 def KeysDistinguished (S : Schema) (F : List DNode) : Prop :=
   ∀ x y, x ∈ subnodesL F → y ∈ subnodesL F → x.sid = y.sid → S.isSorted x.sid = true → cmpInst S x y = .eq →
-    keysOf S x.kids = keysOf S y.kids ∧ x.val = y.val
+    keyPairs (keysOf S x.kids) = keyPairs (keysOf S y.kids) ∧ x.val = y.val
+
+/-- the same, as a check that `decide` can run on a concrete tree -/
+def keysDistinguishedB (S : Schema) (F : List DNode) : Bool :=
+  (subnodesL F).all fun x => (subnodesL F).all fun y =>
+    !(x.sid == y.sid && S.isSorted x.sid && cmpInst S x y == .eq) ||
+      (keyPairs (keysOf S x.kids) == keyPairs (keysOf S y.kids) && x.val == y.val)
+
+theorem keysDistinguished_of_check (S : Schema) (F : List DNode) (h : keysDistinguishedB S F = true) :
+    KeysDistinguished S F := by
+  intro x y hx hy hs hso hc
+  unfold keysDistinguishedB at h
+  simp only [List.all_eq_true] at h
+  have := h x hx y hy
+  rw [hs] at hso
+  simpa [hs, hso, hc] using this
 
 end LyModel.Diff
